@@ -1,6 +1,7 @@
 import ChythonModel.Proofs.C13Step
 import ChythonModel.Proofs.C13Graph
 import ChythonModel.Proofs.C13WFStep
+import ChythonModel.Proofs.C13LabelsStep
 /-!
 # C13 — edits keep derived views coherent; transactions atomic; copies independent
 
@@ -404,6 +405,83 @@ def wfHist : List (Op × List String) :=
 example : demoMol.WF = true ∧
     ((runHist current (freshWorld demoMol) wfHist).objs.map fun o => (o.mol.ids, o.mol.bondsCount, o.backup.isSome && o.backup != some none)) =
       [([2, 1, 3, 4, 5], 4, false), ([1, 3], 1, false), ([2, 1, 3, 4, 5, 6, 7], 5, false), ([2, 1, 3, 4, 5, 6, 7], 5, true)] := by
+  decide +kernel
+
+/-! ## stored labels are fresh in every reachable settled state -/
+
+/-- today's table: no method other than `__enter__`/`__exit__` writes the snapshot slot; `remap`, `union`, `fix_stereo`,
+`clean_stereo` neither relabel nor restore; `__enter__` only copies; the calls `substructure` makes end with fresh labels -/
+theorem labels_ok_current : LabelsOK current = true := by decide +kernel
+
+/-- histories of the label theorem: `admissible`, and additionally `copy()` is taken outside a transaction and a union
+does not pull atoms of a molecule that is inside a transaction into one that is outside (`labelPre`) -/
+def admissibleL (T : Tables) : World → List (Op × List String) → Bool
+  | _, [] => true
+  | w, (op, obs) :: rest =>
+    stepPre T w op && labelPre w op && (((step T w op obs).err.isNone) || decide ((step T w op obs).w = w)) &&
+      admissibleL T (step T w op obs).w rest
+
+/-- **labels_step**: one operation preserves the three invariants together — cache coherence (`WInv`), well-formed graphs
+(`WorldWF`) and: the stored labels (hybridisation, neighbour / heteroatom / explicit-hydrogen counts, ring marks) of every
+object outside a transaction, and of every transaction snapshot, are what `calc_labels` would compute now. -/
+theorem labels_step {T : Tables} (hT : TablesOK T = true) (hG : GraphOK T = true) (hL : LabelsOK T = true) {w : World}
+    {op : Op} {obs : List String} (hw : W3 w) (hp : stepPre T w op = true) (hlp : labelPre w op = true)
+    (herr : (step T w op obs).err = none) : W3 (step T w op obs).w :=
+  ⟨step_inv hT hw.inv (stepPre_iff hp) herr, step_wf hG op obs hw.wf, step_lab hT hL hw (stepPre_iff hp) hlp herr⟩
+
+theorem labels_reachable {T : Tables} (hT : TablesOK T = true) (hG : GraphOK T = true) (hL : LabelsOK T = true) :
+    ∀ (h : List (Op × List String)) (w : World), W3 w → admissibleL T w h = true → W3 (runHist T w h) := by
+  intro h
+  induction h with
+  | nil => intro w hw _; exact hw
+  | cons x rest ih =>
+    intro w hw ha
+    obtain ⟨op, obs⟩ := x
+    simp only [admissibleL, Bool.and_eq_true, Bool.or_eq_true, decide_eq_true_eq] at ha
+    simp only [runHist]
+    apply ih _ _ ha.2
+    rcases ha.1.2 with he | he
+    · exact labels_step hT hG hL hw ha.1.1.1 ha.1.1.2 (by simpa using he)
+    · rw [he]; exact hw
+
+theorem fresh_world_w3 (m : Mol) (hm : m.WF = true) : W3 (freshWorld m) := by
+  refine ⟨fresh_world_inv m, ?_, ?_⟩ <;> intro o ho <;> simp only [freshWorld, List.mem_singleton] at ho <;> subst ho
+  · exact ⟨MolWF.ofBool hm, fun bk hbk => by simp [freshObj] at hbk⟩
+  · exact ⟨fun _ => by simp [labelsFresh, freshObj], fun bk hbk => by simp [freshObj] at hbk⟩
+
+/-- **labels_fresh_reachable** (today's code): from any well-formed molecule, after any history of the label theorem's
+domain — edits, transactions (successful and aborted), `remap`, `union` (in place and into a new object, with and without
+renumbering), `substructure`, `copy`, reads, attribute writes — every object that is outside a transaction carries fresh
+labels, and so does the snapshot of every open transaction. -/
+theorem labels_fresh_reachable (m : Mol) (hm : m.WF = true) (h : List (Op × List String))
+    (ha : admissibleL current (freshWorld m) h = true) :
+    ∀ o ∈ (runHist current (freshWorld m) h).objs,
+      (o.backup = some none → labelsFresh o.toCore = true) ∧ (∀ bk, o.backup = some (some bk) → labelsFresh bk = true) := by
+  intro o ho
+  have := (labels_reachable tables_ok_current graph_ok_current labels_ok_current h _ (fresh_world_w3 m hm) ha).lab o ho
+  exact ⟨this.live, this.snap⟩
+
+/-- consequence: outside a transaction the label hypothesis that `stepPre` makes for `calc_labels()` and
+`fix_structure(recalculate_hydrogens=False)` holds by itself in every reachable world — it restricts histories only
+inside a transaction (where edits leave labels pending until `__exit__`) -/
+theorem label_hypothesis_automatic {w : World} (hw : W3 w) (op : Op) (o : Obj) (hget : w.objs[op.target]? = some o)
+    (hout : inTxn o = false) (hop : op = .calcLabels op.target ∨ op = .fixStructure op.target false) :
+    labelsFresh o.toCore = true := by
+  have ho := hw.inv o (mem_of_get hget)
+  exact (hw.lab o (mem_of_get hget)).live (inv_out ho hout)
+
+/-- non-vacuous: a history in the domain through ring closure, renumbering, substructure, in-place union with
+renumbering, union into a new object, a successful and an aborted transaction, a coordinate bond (the `calc_labels`-only
+path) — and the label flags of the four resulting objects -/
+def labHist : List (Op × List String) :=
+  [(.addBond 0 1 3 1 false, []), (.remap 0 [(1, 2), (2, 1)], []), (.substructure 0 [1, 3] true, []),
+   (.union 0 1 true false, []), (.union 0 1 true true, []), (.enter 0, []), (.setCharge 0 3 1, []), (.delAtom 0 4 false, []),
+   (.exitOk 0, []), (.copy 2 false false, []), (.enter 3, []), (.delBond 3 1 2 false, []), (.exitExc 3, []),
+   (.addBond 3 1 5 8 false, []), (.calcLabels 3, []), (.enter 1, []), (.addAtom 1 6 none false, [])]
+
+example : demoMol.WF = true ∧ admissibleL current (freshWorld demoMol) labHist = true ∧
+    ((runHist current (freshWorld demoMol) labHist).objs.map fun o => (o.mol.ids.length, inTxn o, labelsFresh o.toCore)) =
+      [(4, false, true), (3, true, false), (7, false, true), (7, false, true)] := by
   decide +kernel
 
 end ChythonModel.Props.C13
